@@ -1,6 +1,6 @@
 (* C03 - The target is left running and undisturbed.  Property theorems only (dumper bookkeeping). *)
 From Coq Require Import List NArith Arith.
-From MDW Require Import Ptrace PtraceProofs.
+From MDW Require Import Ptrace PtraceProofs PtraceMore.
 Import ListNotations.
 Local Open Scope nat_scope.
 
@@ -13,3 +13,14 @@ Theorem C03_released : forall ts s x,
   traced (final (run ts s)) x = false /\ gstop (final (run ts s)) = false.
 Proof. intros ts s x. exact (run_releases ts s x). Qed.
 Print Assumptions C03_released.
+
+(* Signals: every signal seen while attaching to a thread (any thread whose attach did not fail outright) is
+   re-injected exactly once, in order, and nothing else is injected - whether the request completes or fails
+   after suspension; when initialisation fails nothing was consumed.  (Signals arriving while a thread is
+   traced stay queued in the kernel: the dumper never dequeues them.) *)
+Theorem C03_signals_reinjected_once : forall ts reads,
+  delivered (final (run ts (Completes reads))) = rev (flat_map seen ts) /\
+  delivered (final (run ts (AfterSuspend reads))) = rev (flat_map seen ts) /\
+  delivered (final (run ts InitFails)) = [].
+Proof. exact signals_reinjected_once. Qed.
+Print Assumptions C03_signals_reinjected_once.
